@@ -1,0 +1,153 @@
+//go:build verif
+
+package semver
+
+// Contracts for the verification machinery in /verif (comment-only file;
+// excluded from every build without the "verif" tag).
+
+//@ spec func isDigit(c int) bool { '0' <= c && c <= '9' }
+//@ spec func identChar(c int) bool { ('A' <= c && c <= 'Z') || ('a' <= c && c <= 'z') || ('0' <= c && c <= '9') || c == '-' }
+//@ spec func allDigits(s string) bool { forall k int :: 0 <= k && k < len(s) ==> isDigit(s[k]) }
+// a SemVer numeric field: non-empty digit string without leading zero
+//@ spec func numField(s string) bool { len(s) >= 1 && allDigits(s) && (len(s) > 1 ==> s[0] != '0') }
+
+//@ func isIdentChar
+//@   pure
+//@   ensures result == identChar(c)
+
+//@ func isBadNum
+//@   pure
+//@   loop 0 invariant 0 <= i && i <= len(v) && forall k int :: 0 <= k && k < i ==> isDigit(v[k])
+//@   loop 0 decreases len(v) - i
+//@   ensures result == (len(v) > 1 && v[0] == '0' && allDigits(v))
+
+//@ func isNum
+//@   pure
+//@   loop 0 invariant 0 <= i && i <= len(v) && forall k int :: 0 <= k && k < i ==> isDigit(v[k])
+//@   loop 0 decreases len(v) - i
+//@   ensures result == allDigits(v)
+
+//@ func parseInt
+//@   pure
+//@   loop 0 invariant 1 <= i && i <= len(v) && forall k int :: 0 <= k && k < i ==> isDigit(v[k])
+//@   loop 0 decreases len(v) - i
+//@   ensures ok ==> same(t, v[:len(t)]) && same(rest, v[len(t):]) && 1 <= len(t) && len(t) <= len(v)
+//@   ensures ok ==> numField(t)
+//@   ensures ok ==> (len(rest) > 0 ==> !isDigit(rest[0]))
+//@   ensures !ok ==> (len(v) == 0 || !isDigit(v[0]) || (v[0] == '0' && len(v) > 1 && isDigit(v[1])))
+//@   ensures !ok ==> len(t) == 0 && len(rest) == 0
+
+//@ func nextIdent
+//@   loop 0 invariant 0 <= i && i <= len(x) && forall k int :: 0 <= k && k < i ==> x[k] != '.'
+//@   loop 0 decreases len(x) - i
+//@   pure
+//@   ensures same(dx, x[:len(dx)]) && same(rest, x[len(dx):]) && len(dx) <= len(x)
+//@   ensures forall k int :: 0 <= k && k < len(dx) ==> dx[k] != '.'
+//@   ensures len(rest) > 0 ==> rest[0] == '.'
+//@   ensures len(dx) == identLen(x)
+
+// (P) "numeric fields numerically": for digit strings without leading zeros the
+// numeric order is the (length, lexicographic) order (numeral-order lemma, see DESIGN.md)
+//@ spec func lenLex(x string, y string) int { ite(len(x) < len(y), -1, ite(len(x) > len(y), 1, lexcmp(x, y))) }
+
+//@ func compareInt
+//@   pure
+//@   ensures result == lenLex(x, y)
+//@   ensures -1 <= result && result <= 1
+
+// ---- prerelease precedence (SemVer 2.0 §11, quoted in comparePrerelease) as a
+// recursive specification over the remaining suffixes ----
+
+//@ spec func identLen(s string) int
+//@ axiom identLen_range: forall s string :: {identLen(s)} 0 <= identLen(s) && identLen(s) <= len(s) && (identLen(s) < len(s) ==> s[identLen(s)] == '.')
+//@ axiom identLen_nodot: forall s string, k int :: {identLen(s), s[k]} 0 <= k && k < identLen(s) ==> s[k] != '.'
+//@ spec func identOf(s string) string { s[:identLen(s)] }
+// "identifiers consisting of only digits are compared numerically [(len, lex) for
+// numerals without leading zeros] and identifiers with letters or hyphens are
+// compared lexically in ASCII sort order. Numeric identifiers always have lower
+// precedence than non-numeric identifiers."
+//@ spec func identCmp(dx string, dy string) int { ite(allDigits(dx) != allDigits(dy), ite(allDigits(dx), -1, 1), ite(allDigits(dx) && len(dx) != len(dy), ite(len(dx) < len(dy), -1, 1), lexcmp(dx, dy))) }
+// "comparing each dot separated identifier from left to right until a difference
+// is found ... A larger set of pre-release fields has a higher precedence than a
+// smaller set, if all of the preceding identifiers are equal."
+// x and y are the remaining texts, each starting with its separator ('-' or '.').
+//@ spec func preSpec(x string, y string) int { ite(len(x) == 0 || len(y) == 0, ite(len(x) == 0, -1, 1), ite(identOf(x[1:]) != identOf(y[1:]), identCmp(identOf(x[1:]), identOf(y[1:])), preSpec(x[1+identLen(x[1:]):], y[1+identLen(y[1:]):]))) }
+// "a pre-release version has lower precedence than a normal version"
+//@ spec func preCmp(x string, y string) int { ite(x == y, 0, ite(len(x) == 0, 1, ite(len(y) == 0, -1, preSpec(x, y)))) }
+
+//@ func comparePrerelease
+//@   pure
+//@   loop 0 invariant preSpec(x, y) == preSpec(old(x), old(y))
+//@   ensures result == preCmp(x, y)
+
+// ---- the version grammar ----
+
+//@ spec func preChar(c int) bool { identChar(c) || c == '.' }
+// t is "-" followed by dot separated, non-empty identifiers over [0-9A-Za-z-]
+//@ spec func preShape(t string) bool { len(t) >= 2 && t[0] == '-' && t[1] != '.' && t[len(t)-1] != '.' && (forall k int :: 1 <= k && k < len(t) ==> preChar(t[k])) && (forall k int :: 1 <= k && k + 1 < len(t) && t[k] == '.' ==> t[k+1] != '.') }
+//@ spec func buildShape(t string) bool { len(t) >= 2 && t[0] == '+' && t[1] != '.' && t[len(t)-1] != '.' && (forall k int :: 1 <= k && k < len(t) ==> preChar(t[k])) && (forall k int :: 1 <= k && k + 1 < len(t) && t[k] == '.' ==> t[k+1] != '.') }
+
+//@ func parsePrerelease
+//@   pure
+//@   loop 0 invariant 1 <= start && start <= i && i <= len(v) && v[0] == '-'
+//@   loop 0 invariant forall k int :: 1 <= k && k < i ==> preChar(v[k]) && v[k] != '+'
+//@   loop 0 invariant forall k int :: start <= k && k < i ==> v[k] != '.'
+//@   loop 0 invariant start > 1 ==> v[start-1] == '.'
+//@   loop 0 invariant forall k int :: 1 <= k && k + 1 <= i && v[k] == '.' ==> k + 1 <= start && (k + 1 < i ==> v[k+1] != '.')
+//@   loop 0 invariant v[1] != '.' || i == 1
+//@   loop 0 decreases len(v) - i
+//@   ensures ok ==> same(t, v[:len(t)]) && same(rest, v[len(t):]) && len(t) <= len(v)
+//@   ensures ok ==> preShape(t)
+//@   ensures ok ==> (len(rest) > 0 ==> rest[0] == '+')
+//@   ensures !ok ==> len(t) == 0 && len(rest) == 0
+
+//@ func parseBuild
+//@   pure
+//@   loop 0 invariant 1 <= start && start <= i && i <= len(v) && v[0] == '+'
+//@   loop 0 invariant forall k int :: 1 <= k && k < i ==> preChar(v[k])
+//@   loop 0 invariant forall k int :: start <= k && k < i ==> v[k] != '.'
+//@   loop 0 invariant start > 1 ==> v[start-1] == '.'
+//@   loop 0 invariant forall k int :: 1 <= k && k + 1 <= i && v[k] == '.' ==> k + 1 <= start && (k + 1 < i ==> v[k+1] != '.')
+//@   loop 0 invariant v[1] != '.' || i == 1
+//@   loop 0 decreases len(v) - i
+//@   ensures ok ==> same(t, v[:len(t)]) && same(rest, v[len(t):]) && len(t) == len(v) && len(rest) == 0
+//@   ensures ok ==> buildShape(t)
+//@   ensures !ok ==> len(t) == 0 && len(rest) == 0
+
+// v MAJOR [. MINOR [. PATCH [PRERELEASE] [BUILD]]]; missing fields read as "0"
+//@ func parse
+//@   pure
+//@   ensures ok ==> len(v) >= 2 && v[0] == 'v'
+//@   ensures ok ==> numField(p.major) && numField(p.minor) && numField(p.patch)
+//@   ensures ok ==> same(p.major, v[1:1+len(p.major)])
+//@   ensures ok ==> len(p.prerelease) == 0 || preShape(p.prerelease)
+//@   ensures ok ==> len(p.build) == 0 || buildShape(p.build)
+//@   ensures ok && len(p.short) == 0 ==> 1 + len(p.major) + 1 + len(p.minor) + 1 + len(p.patch) + len(p.prerelease) + len(p.build) == len(v)
+//@   ensures ok && len(p.short) == 0 ==> v[1+len(p.major)] == '.' && same(p.minor, v[2+len(p.major):2+len(p.major)+len(p.minor)]) && v[2+len(p.major)+len(p.minor)] == '.' && same(p.patch, v[3+len(p.major)+len(p.minor):3+len(p.major)+len(p.minor)+len(p.patch)])
+//@   ensures ok && len(p.short) == 0 ==> (len(p.prerelease) == 0 || same(p.prerelease, v[3+len(p.major)+len(p.minor)+len(p.patch):3+len(p.major)+len(p.minor)+len(p.patch)+len(p.prerelease)])) && (len(p.build) == 0 || same(p.build, v[len(v)-len(p.build):]))
+//@   ensures ok && len(p.short) != 0 ==> len(p.prerelease) == 0 && len(p.build) == 0
+
+// (P) C14: "version comparison ... agrees with Semantic Versioning 2.0 precedence
+// (numeric fields numerically, pre-releases below releases, identifiers compared
+// per the standard, build metadata ignored)": the result is a function of
+// (major, minor, patch, prerelease) of the parsed versions only.
+//@ spec func semCmp(p parsed, q parsed) int { ite(lenLex(p.major, q.major) != 0, lenLex(p.major, q.major), ite(lenLex(p.minor, q.minor) != 0, lenLex(p.minor, q.minor), ite(lenLex(p.patch, q.patch) != 0, lenLex(p.patch, q.patch), preCmp(p.prerelease, q.prerelease)))) }
+
+//@ func Compare
+//@   pure
+//@   ensures !parse(v).ok && !parse(w).ok ==> result == 0
+//@   ensures !parse(v).ok && parse(w).ok ==> result == -1
+//@   ensures parse(v).ok && !parse(w).ok ==> result == 1
+//@   ensures parse(v).ok && parse(w).ok ==> result == semCmp(parse(v).p, parse(w).p)
+
+// ---- order laws (spec level; lexcmp is the axiomatised bytewise order) ----
+//@ lemma lenLex_antisym: forall x, y string :: lenLex(x, y) == -lenLex(y, x)
+//@ lemma lenLex_refl: forall x string :: lenLex(x, x) == 0
+//@ lemma lenLex_trans: forall x, y, z string :: lenLex(x, y) <= 0 && lenLex(y, z) <= 0 ==> lenLex(x, z) <= 0
+//@ lemma lenLex_zero_is_equal: forall x, y string :: lenLex(x, y) == 0 ==> x == y
+//@ lemma identCmp_antisym: forall x, y string :: identCmp(x, y) == -identCmp(y, x)
+//@ lemma identCmp_trans: forall x, y, z string :: identCmp(x, y) <= 0 && identCmp(y, z) <= 0 ==> identCmp(x, z) <= 0
+// induction step of antisymmetry of the prerelease order (the induction over the
+// number of identifiers itself is a paper argument, see DESIGN.md)
+//@ lemma preSpec_antisym_step: forall x, y string :: len(x) > 0 && len(y) > 0 && preSpec(x[1+identLen(x[1:]):], y[1+identLen(y[1:]):]) == -preSpec(y[1+identLen(y[1:]):], x[1+identLen(x[1:]):]) ==> preSpec(x, y) == -preSpec(y, x)
+//@ lemma preSpec_base: forall x, y string :: (len(x) == 0) != (len(y) == 0) ==> preSpec(x, y) == -preSpec(y, x)
